@@ -696,7 +696,18 @@ class Arc(Entity):
         else:
             # since the AABB of a partial arc is hard, approximate
             # the bounds by just looking at the discrete values
-            discrete = self.discrete(vertices)
+            # discretize relative to the size of the arc itself: with the
+            # default `scale=1.0` the number of points was proportional to
+            # the radius in absolute units, so reading the bounds (and with
+            # them `scale`, `discrete`, `area`) of a large drawing took
+            # gigabytes or raised MemoryError
+            try:
+                scale = self.center(
+                    vertices, return_normal=False, return_angle=False
+                ).radius
+            except BaseException:
+                scale = 1.0
+            discrete = self.discrete(vertices, scale=scale)
             bounds = np.array(
                 [discrete.min(axis=0), discrete.max(axis=0)], dtype=np.float64
             )
